@@ -217,6 +217,10 @@ func (mgr *GCMgr) gc(bkt *Bucket, startChunkID, endChunkID int, merge bool) {
 
 	mgr.BeforeBucket(bkt, startChunkID, endChunkID, merge)
 	defer mgr.AfterBucket(bkt)
+	if gc.CancelFlag {
+		logger.Infof("GC canceled before start: bucket %d chunk [%d, %d]", bkt.ID, startChunkID, endChunkID)
+		return
+	}
 
 	gc.Dst = startChunkID
 	// try to find the nearest chunk that small than start chunk
@@ -249,7 +253,9 @@ func (mgr *GCMgr) gc(bkt *Bucket, startChunkID, endChunkID int, merge bool) {
 	}()
 
 	for gc.Src = gc.Begin; gc.Src <= gc.End; gc.Src++ {
-		if gc.CancelFlag {
+		// a cancel is honoured between two source files only: stopping before the first file of an
+		// in-place rewrite has been read would let endGCWriting truncate it to nothing
+		if gc.CancelFlag && gc.Src > gc.Begin {
 			logger.Infof("GC canceled: src %d dst %d", gc.Src, gc.Dst)
 			return
 		}
